@@ -579,7 +579,14 @@ impl<'a, K: Check> WorkerCtx<'a, K> {
                 format!("uncaught panic while running the case: {p}"),
             ),
         };
-        *self.shared.inflight[self.worker].lock().unwrap() = None;
+        if let Some((t0, _)) = self.shared.inflight[self.worker].lock().unwrap().take() {
+            // diagnostic only: PV_SLOW_MS=<n> reports every case slower than n ms
+            let slow = env_u64("PV_SLOW_MS", 0);
+            if slow > 0 && t0.elapsed().as_millis() as u64 >= slow {
+                let c = serde_json::to_string(case).unwrap_or_default();
+                eprintln!("pv: slow case {} ms: {}", t0.elapsed().as_millis(), &c[..c.len().min(300)]);
+            }
+        }
         let mut viol = None;
         let mut known_hit = false;
         if let Verdict::Violation { sig, what } = &out.verdict {
